@@ -42,6 +42,7 @@ Shapes == {
   Ln(<<W("END")>>, FALSE), Ln(<<W("END"), Nm(0)>>, FALSE), Ln(<<W("END"), Nm(1)>>, FALSE),
   Ln(<<W("END"), Nm(-1)>>, FALSE), Ln(<<W("END"), Nm(9)>>, FALSE), Ln(<<W("END"), Nm(1), Nm(2)>>, FALSE),
   Ln(<< >>, FALSE),                                                   \* blank / comment line
+  Ln(<< >>, TRUE),                                                    \* a line of commas only: neither blank nor a comment
   Ln(<<W("HELLO")>>, FALSE) }
 
 IsNum(x) == x[1] = "n"
@@ -66,7 +67,8 @@ RECURSIVE ReadLines(_, _, _, _, _)
 ReadLines(lines, k, st, d, M) ==
   IF k > Len(lines) \/ st.stop \/ st.err THEN st
   ELSE LET l == lines[k]  f == l.f  n == Len(f) IN
-       IF n = 0 THEN ReadLines(lines, k + 1, st, d, M)                                      \* ReadBlank / ReadComment
+       IF n = 0 /\ ~l.comma THEN ReadLines(lines, k + 1, st, d, M)                         \* ReadBlank / ReadComment
+       ELSE IF n = 0 THEN [st EXCEPT !.err = TRUE]                                           \* ReadBad: commas only
        ELSE IF n = 5 THEN LET r == Instr(l, d, M) IN                                        \* ReadInstr
                           IF r.ok THEN ReadLines(lines, k + 1, [st EXCEPT !.code = Append(@, r.ins)], d, M)
                           ELSE [st EXCEPT !.err = TRUE]
